@@ -79,7 +79,7 @@ func c06SignN(b *bundle.Bundle, which int, chainLen int) {
 // symbolic 0..3 byte body, symbolic header value) and one it does not (https://other.test/b) is signed by 1 or 2
 // signers appended one after another, with certificate chains of 1..2 (thorough 1..3) certificates (real Signer code; ECDSA idealised, SHA-256 collision-free), written and read
 // back through the real bundle format; then ONE thing is altered by a symbolic amount - covered body byte (any
-// position, any XOR mask), status, header value, added header, a byte of the signed subset, of the signature, the
+// position, any XOR mask), covered body truncated at any length incl. to nothing / extended by a byte, status, header value, added header, a byte of the signed subset, of the signature, the
 // authority index (any other 64-bit value), the two authorities swapped, or the authority replaced by another certificate for the same key - and verified at
 // t in {date-1, date, expires, expires+1}:
 //   NewVerifier succeeds iff nothing in the signatures section was altered and date <= t <= expires;
@@ -133,7 +133,16 @@ func VH_C06_TamperAfterSigning() {
 	vh.Assume(r1 != nil && r2 != nil)
 	sigAltered, exAltered, bodyEdit := false, false, false
 	vs0 := rb.Signatures.VouchedSubsets[0]
-	switch vh.Choose(10) {
+	switch vh.Choose(12) {
+	case 10:
+		// the MI-encoded body truncated at ANY length incl. to nothing (status, headers and Digest untouched)
+		n := len(r1.Response.Body)
+		vh.Assume(n > 0)
+		r1.Response.Body = r1.Response.Body[:vh.Choose(n)]
+		exAltered, bodyEdit = true, true
+	case 11:
+		r1.Response.Body = append(r1.Response.Body, vh.Byte("extra"))
+		exAltered, bodyEdit = true, true
 	case 9:
 		// the authority replaced by a DIFFERENT certificate for the SAME key: only auth-sha256 can tell
 		other, _ := c06Chain(2)
